@@ -36,15 +36,26 @@ func VerifC10SigExists() {
 	verifAssert(meta.AddCid(indexmeta.MetadataKey_RootCid, root) == nil, "C10.sigexists: AddCid")
 	verifAssert(meta.AddString(indexmeta.MetadataKey_Network, c10Networks[ni]) == nil, "C10.sigexists: AddString")
 
-	// the writer's sealing step with no signatures put: draft header, 65536 empty buckets, final header
-	var file bytes.Buffer
-	out := bufio.NewWriter(&file)
-	var p2h prefixToHashes
-	finalHeader, total, err := seal(out, &p2h, meta)
-	verifAssert(err == nil, "C10.sigexists: seal failed")
-	img := file.Bytes()
-	verifAssert(int64(len(img)) == total, "C10.sigexists: seal size")
-	copy(img, finalHeader) // Writer.Seal: overwriteFileContentAt(destination, 0, newHeader)
+	var img []byte
+	if verifParam("fullseal", 1) == 1 {
+		// the writer's sealing step with no signatures put: draft header, 65536 empty buckets, final header
+		var file bytes.Buffer
+		out := bufio.NewWriter(&file)
+		var p2h prefixToHashes
+		finalHeader, total, err := seal(out, &p2h, meta)
+		verifAssert(err == nil, "C10.sigexists: seal failed")
+		img = file.Bytes()
+		verifAssert(int64(len(img)) == total, "C10.sigexists: seal size")
+		copy(img, finalHeader) // Writer.Seal: overwriteFileContentAt(destination, 0, newHeader)
+	} else {
+		// quick tier: only the two header constructions of seal() (draft with size 0, final with the
+		// draft's size), no bucket area
+		var p2o bucketToOffset
+		draft, err := createHeader(_Magic, Version, 0, meta, p2o)
+		verifAssert(err == nil, "C10.sigexists: createHeader failed")
+		img, err = createHeader(_Magic, Version, uint32(len(draft)-4), meta, p2o)
+		verifAssert(err == nil && len(img) == len(draft), "C10.sigexists: createHeader (final) failed")
+	}
 
 	r, err := NewReader(bytes.NewReader(img))
 	verifAssert(err == nil, "C10.sigexists: the reader refuses the file the writer sealed")
